@@ -43,8 +43,8 @@ def run(ctx):
                 tot["capped"] += 1
             for kind, n in (("happens_before", r["hb_bad"]), ("racing_events", r["race_bad"]), ("asymmetric-dependency", r["asym"])):
                 if n:
-                    ops = "+".join(sorted(set(op[0] for a in p["actors"] + p.get("templates", []) for op in a) - {"rd", "wr", "set", "logv", "assert"}))
-                    key = "C42 %s ops=%s" % (kind, ops)
+                    ops = mcprogs.features(p)
+                    key = "C42 %s uses=%s" % (kind, ops)
                     note = next((x for x in r["notes"] if x.startswith(kind.split("-")[0][:6]) or kind[:6] in x), r["notes"][0] if r["notes"] else "")
                     violations.setdefault(key, common.Violation(key, "%d mismatches, e.g. %s -- program: %s" % (n, note, synccheck.compact(p)), dict(program=p, kind=kind)))
         if len(samples) < 4 and progs:
